@@ -55,7 +55,7 @@ def minBy (key : Nat → Nat) : List Nat → Option Nat
 /-- insertion sort by key; `sorted(..., key=…)` on pairwise different keys -/
 def insertBy (key : Nat → Nat) (x : Nat) : List Nat → List Nat
   | [] => [x]
-  | y :: ys => if key x < key y then x :: y :: ys else y :: insertBy key x ys
+  | y :: ys => if key x ≤ key y then x :: y :: ys else y :: insertBy key x ys
 
 def sortBy (key : Nat → Nat) : List Nat → List Nat
   | [] => []
